@@ -517,6 +517,9 @@ class UTPM(Ring, RawAlgorithmsMixIn):
             raise NotImplementedError('should implement that')
 
         elif numpy.isscalar(rhs) or isinstance(rhs,numpy.ndarray):
+            if isinstance(rhs,numpy.ndarray) and numpy.may_share_memory(self.data, rhs):
+                # rhs is a view of a coefficient of self (e.g. x *= x.data[0,0]): the loop below would overwrite it on the way
+                rhs = rhs.copy()
             for d in range(D):
                 for p in range(P):
                     self.data[d,p,...] *= rhs
